@@ -25,6 +25,9 @@ def load_modules(paths, cache_dir=None):
     mod = Module()
     for p in paths:
         parse_module(p, mod)
+    for a, tgt in mod.aliases.items():
+        if tgt in mod.funcs and a not in mod.funcs:
+            mod.funcs[a] = mod.funcs[tgt]
     if cache_dir:
         os.makedirs(cache_dir, exist_ok=True)
         sys.setrecursionlimit(100000)
